@@ -71,8 +71,29 @@ type outcome struct {
 	Panics    []string
 }
 
+// inputs currently inside feed (for the memory guard of vk: which input made the parser allocate)
+var (
+	inflight    [64]atomic.Pointer[[][]byte]
+	inflightSeq atomic.Uint64
+)
+
+func init() {
+	vk.MemGuardInfo.Store(func() string {
+		var out []string
+		for i := range inflight {
+			if p := inflight[i].Load(); p != nil {
+				out = append(out, showFrames(*p))
+			}
+		}
+		return strings.Join(out, "  ||  ")
+	})
+}
+
 // feed runs one frame sequence through a fresh parser with all monitors on.
 func feed(frames [][]byte) (o outcome) {
+	slot := &inflight[inflightSeq.Add(1)%64]
+	slot.Store(&frames)
+	defer slot.Store(nil)
 	o.DecodeErr = map[string]string{}
 	p := creator()
 	var dec parser.Decode
